@@ -29,6 +29,10 @@ static int rn_n;
 static uint8_t rs[RS_MAX];
 static uint32_t rs_n;
 static int r_failed; /* set by JERR: the item stops at the first disagreement */
+/* Lookups answered by a member whose name differs only in case are always counted; they are *reported* only while this
+ * flag is set (the tree section sets it for trees of <= 3 nodes: the engine prints nothing after 100000 violations, and
+ * one defect must not drown every later signature). */
+static bool j_report_case_twins = true;
 
 #define JERR(clause, ...)                                                                                        \
     do {                                                                                                         \
@@ -610,7 +614,7 @@ static void j_walk(const struct aws_json_value *v, int r, const char *stage, boo
                             /* json.h: "key ... Is case sensitive".  Reported, but the item goes on (lookups are the only
                              * thing case twins disturb; order / bytes / round trip are still checked). */
                             V_COUNT("lookups_answered_by_case_twin", 1);
-                            JFAIL("get-ignores-case", "%s: get_from_object(<%s>) returned the member named <%s> (member %d) instead of member %d", stage,
+                            if (j_report_case_twins) JFAIL("get-ignores-case", "%s: get_from_object(<%s>) returned the member named <%s> (member %d) instead of member %d", stage,
                                   v_show(kc.ptr, kc.len), v_show(m.key[twin].ptr, m.key[twin].len), twin, i);
                         } else {
                             JERR("get-from-object", "%s: get_from_object(<%s>) returned %s", stage, v_show(kc.ptr, kc.len), g ? "a different member" : "NULL");
